@@ -33,6 +33,34 @@ def configure(p):
     SRC = common.load({"schema": p["schema"], "doc": p["src"]}) if "src" in p else None
 
 
+def missing_leading(sl):
+    """The slice is open at both ends through a node whose own content (as it stands in the slice) is not a valid
+    prefix of its content expression, i.e. required leading children were cut off."""
+    if sl is None or not sl.open_start or not sl.open_end:
+        return False
+    node, depth = None, 0
+    frag = sl.content
+    while depth < min(sl.open_start, sl.open_end) and frag.child_count == 1:
+        node = frag.content[0]
+        if node.is_text or node.is_leaf:
+            break
+        kids = [c.type.name for c in node.content.content]
+        # prefix test with the spec-derived matcher: is there any way to complete `kids` to valid content?
+        if not any(C.V.content_ok(node.type.name, kids + list(ext)) for ext in _EXT(node.type.name)):
+            return True
+        frag = node.content
+        depth += 1
+    return False
+
+
+def _EXT(tname):
+    import itertools
+    names = [n for n in C.V.nodes if n != C.V.top]
+    for k in range(0, 3):
+        for ext in itertools.product(names, repeat=k):
+            yield ext
+
+
 def judge(tr, a, b, ins):
     if not tr.steps:
         # nothing could be fitted: the edit is silently declined (same as upstream) - document untouched
@@ -68,7 +96,14 @@ def _edit(a, b, x):
     if "xs" in P and x not in P["xs"]:
         return rt.SKIP
     tr = Transform(C.doc)
-    ops.run_op(C, tr, kind, a, b, x)          # totality: any exception is a failure (rt.run)
+    try:
+        ops.run_op(C, tr, kind, a, b, x)      # totality: any exception is a failure (rt.run)
+    except ValueError as e:
+        # listed open finding: a slice open on both sides through a node that lacks its required leading content
+        if "contentMatchAt" in str(e) and missing_leading(C.slices[x] if kind in ("replace", "replace_range") else None) \
+                and rt.known_mode("C11-open-slice-missing-leading-content"):
+            return rt.fin(tr.doc is C.doc and not tr.steps, "declined edit changed the document")
+        raise
     a, b = rt.pick(a, 0, C.size), rt.pick(b, 0, C.size)
     if kind in ("replace", "replace_range"):
         ins = tlib.slice_leaves_nomarks(C.slices[x])
@@ -96,10 +131,12 @@ def _cross(a, b, c, d):
         return rt.SKIP
     sl = SRC.doc.slice(c, d)
     tr = Transform(C.doc)
-    if P["kind"] == "replace":
-        tr.replace(a, b, sl)
-    else:
-        tr.replace_range(a, b, sl)
+    from engine import stepbudget
+    with stepbudget.budget(ops.FIT_BUDGET):
+        if P["kind"] == "replace":
+            tr.replace(a, b, sl)
+        else:
+            tr.replace_range(a, b, sl)
     a, b, c, d = rt.pick(a, 0, C.size), rt.pick(b, 0, C.size), rt.pick(c, 0, SRC.size), rt.pick(d, 0, SRC.size)
     ok, why = judge(tr, a, b, tlib.leaves_nomarks(SRC.tok[c:d]))
     return rt.fin(ok, why)
@@ -141,6 +178,15 @@ def obligations(tier, seed):
                     obs.append({"name": "%s/%s#%d/%d" % (kind, sn, i, lo), "fn": "ob_edit",
                                 "P": {"schema": sn, "doc": i, "kind": kind, "alo": lo, "ahi": lo + 4}, "timeout": T})
     if tier == "quick":
+        # slices that are open through an isolating node down into its text (last entry of the table / iso slice catalogues)
+        for (sn, i) in [("table", 0), ("iso", 1)]:
+            pp = {"schema": sn, "doc": i}
+            size = common.templates.doc(sn, i).content.size
+            ns = common.templates.nslices(sn)
+            for kind in ("replace", "replace_range"):
+                for lo in range(0, size + 1, 6):
+                    obs.append({"name": "%s/%s#%d-isoopen/%d" % (kind, sn, i, lo), "fn": "ob_edit",
+                                "P": dict(pp, kind=kind, alo=lo, ahi=lo + 6, xs=[ns - 1]), "timeout": T})
         # marked text (one and two marks) into a document that has a mark-free code block
         for (sn, i) in [("list", 4)]:
             pp = {"schema": sn, "doc": i}
